@@ -533,6 +533,34 @@ def pathx_canon(t):
     return canon_test(t)
 
 
+def _declared_range(ctx, classes, stem):
+    """(lo, hi) of the range attribute declared for configuration entry `stem` (clkout_divide -> clkout_divide_range / _frange), the
+    instance assignment in __init__ taking precedence over the class attribute, the first class of `classes` over the next; the
+    tuple is evaluated by the checker's interpreter.  None when nothing is declared or it is not a constant pair."""
+    from .. import pyconst
+    for rel, cls in classes:
+        m = ctx.mod(rel)
+        cdef = m.classes.get(cls)
+        if cdef is None:
+            continue
+        found = None
+        for nm in (stem + "_range", stem + "_frange"):
+            for st in cdef.body:
+                if isinstance(st, ast.Assign) and any(isinstance(t, ast.Name) and t.id == nm for t in st.targets):
+                    found = st.value
+            for fn in cdef.body:
+                if isinstance(fn, ast.FunctionDef) and fn.name == "__init__":
+                    for st in ast.walk(fn):
+                        if isinstance(st, ast.Assign) and any(norm(t) == "self." + nm for t in st.targets):
+                            found = st.value
+        if found is not None:
+            v = pyconst.Interp().ev(found)
+            if isinstance(v, (tuple, list)) and len(v) == 2 and all(isinstance(x, (int, float)) for x in v):
+                return (v[0], v[1])
+            return None
+    return None
+
+
 def run(ctx):
     ctx.rule("G1", "every loop variable that reaches the returned configuration iterates a declared *_range attribute "
                    "(range/reversed/clkdiv_range of self.<x>range, possibly through locals); frozen exceptions with reason",
@@ -898,3 +926,20 @@ def run(ctx):
                 ctx.ob("G5", D + frel, f"{fcls}.do_finalize", f"{pname} <- config[{k}]", ok,
                        "" if ok else f"parameter {pname} is fed from config[{k!r}]: names do not correspond (tokens {sorted(ktoks)} "
                                      f"not in {sorted(ptoks)}) and the pair is not in the vendor alias table", node)
+        # a parameter emitted as the PRODUCT of two configuration entries: the search bounds each factor by its own declared range,
+        # nothing bounds the product -- sound only while all but one factor have a one-value range (S6DCM folds the fixed input
+        # divider 1 into CLKFX_DIVIDE)
+        for pname, val, node in pairs:
+            for mul in [n for n in ast.walk(val) if isinstance(n, ast.BinOp) and isinstance(n.op, ast.Mult)]:
+                kl, kr = sorted(set(keys_in(mul.left))), sorted(set(keys_in(mul.right)))
+                if not kl or not kr:
+                    continue
+                wide = []
+                for k in kl + kr:
+                    rng = _declared_range(ctx, [(D + frel, fcls), (D + crel, ccls)], re.sub(r"\d+|#", "", k))
+                    if rng is None or rng[1] - rng[0] != 1:
+                        wide.append((k, rng))
+                ok = len(wide) <= 1
+                ctx.ob("G5", D + frel, f"{fcls}.do_finalize", f"{pname}: product of configuration entries has at most one searched factor", ok,
+                       "" if ok else f"{pname} = {norm(mul)}: " + ", ".join(f"config[{k!r}] ranges over {r_ if r_ else 'an undeclared range'}" for k, r_ in wide) +
+                                     f": each factor was checked against its own range, the emitted product can leave the primitive's range", node)
